@@ -645,7 +645,7 @@ func (b *bitstream) ReadTimestamp() (Timestamp, error) {
 			return Timestamp{}, err
 		}
 		length -= vlength
-		if val > 9999 {
+		if val > 10000 {
 			return Timestamp{}, &SyntaxError{"invalid timestamp - field out of range", b.pos}
 		}
 		ts[i] = int(val)
@@ -668,7 +668,7 @@ func (b *bitstream) ReadTimestamp() (Timestamp, error) {
 	if precision == TimestampNoPrecision {
 		return Timestamp{}, &SyntaxError{"invalid timestamp - year is missing", b.pos}
 	}
-	if ts[0] < 1 || ts[3] > 23 || ts[4] > 59 || ts[5] > 59 || offset <= -24*60 || offset >= 24*60 {
+	if ts[3] > 23 || ts[4] > 59 || ts[5] > 59 || offset <= -24*60 || offset >= 24*60 {
 		return Timestamp{}, &SyntaxError{"invalid timestamp - field out of range", b.pos}
 	}
 
@@ -691,6 +691,10 @@ func (b *bitstream) ReadTimestamp() (Timestamp, error) {
 	timestamp, err := tryCreateTimestamp(ts, nsecs, overflow, offset, osign, precision, fractionPrecision)
 	if err != nil {
 		return Timestamp{}, err
+	}
+	// The fields are UTC; it is the local year (after the offset) that must lie in 0001-9999.
+	if y := timestamp.dateTime.Year(); y < 1 || y > 9999 {
+		return Timestamp{}, &SyntaxError{"invalid timestamp - year out of range", b.pos}
 	}
 
 	b.state = b.stateAfterValue()
